@@ -192,11 +192,27 @@ Definition check_req (impl : fixes) (c : qcase) : verdict :=
        v_guards := [] |}
   end.
 
-(** ** the three streams without in-package access share one driver binary *)
-Inductive mcase := MK (c : kcase) | MT (c : tcase) | MQ (c : qcase).
+(** ** remote documents and tokens on request goroutines: the complete valid
+    document must be accepted; a cut (or otherwise certainly invalid) one must
+    never end in success — an error or a panic, which the recovery middleware
+    answers with an error status *)
+Inductive robs := ROk | RErr | RPanics.
+Record rmcase := { rm_expect : option bool; rm_obs : robs }.
+Definition rmc e o := {| rm_expect := e; rm_obs := o |}.
+
+Definition check_remote (impl : fixes) (c : rmcase) : verdict :=
+  let ok := match rm_obs c with ROk => true | _ => false end in
+  let final_status := match rm_obs c with ROk => 200%Z | RErr => 401%Z | RPanics => recovery_mw (Panicked PkOther) end in
+  {| v_corr := match rm_expect c with Some b => Bool.eqb ok b | None => true end;
+     v_prop := match rm_expect c with Some false => negb (success final_status) | _ => true end;
+     v_guards := [] |}.
+
+(** ** the streams without in-package access share one driver binary *)
+Inductive mcase := MK (c : kcase) | MT (c : tcase) | MQ (c : qcase) | MR (c : rmcase).
 Definition check_misc (impl : fixes) (c : mcase) : verdict :=
   match c with
   | MK c => check_ks impl c
   | MT c => check_ts impl c
   | MQ c => check_req impl c
+  | MR c => check_remote impl c
   end.
